@@ -25,7 +25,7 @@ def cases(tier, seed):
 def requirements(tier):
     k = 1 if tier == "quick" else 15
     return {"min_counters": {"first_hour_twin_comparisons": 60 * k, "slots_compared_with_twin": 3000 * k, "interior_window_checks": 40 * k,
-                             "pairs_checked": 1500 * k, "outside_or_naive_refused": 30 * k},
+                             "pairs_checked": 1500 * k, "outside_or_naive_refused": 30 * k, "inside_dates_accepted": 25 * k},
             "required_classes": ["multi_timezone", "job_shared_by_2_patterns", "change_link", "change_list", "change_num", "first_other_tz"]}
 
 
@@ -43,6 +43,17 @@ def run_case(case):
     sysm = h.system
     dk = rnd.choice(DATE_KINDS) if case["idx"] % 3 else "interior_all_active"
     changes = sim.rand_change_list(rnd, h.spec, h.objs, no_hourly=(case["idx"] % 3 == 0))
+    if case["idx"] % 7 == 3:
+        # a date that certainly belongs to the modelled period: the first hour of a pattern whose (unchanged) starts feed the
+        # changed input's descendants - numeric change on a job of that pattern
+        ups = [u for u in h.spec["objects"][h.spec["system"]]["params"]["usage_patterns"][1] if gen.jobs_of_up(h.spec, u)]
+        if ups:
+            up = rnd.choice(ups); j = rnd.choice(gen.jobs_of_up(h.spec, up))
+            attr = rnd.choice(["ram_needed", "compute_needed", "data_transferred"])
+            old_v = h.spec["objects"][j]["params"][attr]
+            changes = [{"obj": j, "attr": attr, "value": ["q", (old_v[1] or 1.0) * 1.37, old_v[2]]}]
+            dk = "first_of_dependent_pattern"
+            dep_date = h.objs[up].utc_hourly_usage_journey_starts.value.index.min().to_pydatetime()
     for c in changes:
         classes.add({"q": "change_num", "h": "change_num", "ref": "change_link", "refs": "change_list", "s": "change_categorical"}.get(c["value"][0], "x"))
     if dk == "first_other_tz":
@@ -50,6 +61,8 @@ def run_case(case):
         d0 = sim.pick_date(rnd, h.objs, h.spec, "first")
         from datetime import timedelta
         date = d0.astimezone(timezone(timedelta(hours=rnd.choice([9, -5, 5.5, 12.75]))))
+    elif dk == "first_of_dependent_pattern":
+        date = dep_date
     else:
         date = sim.pick_date(rnd, h.objs, h.spec, dk)
         if date is None:
@@ -69,6 +82,9 @@ def run_case(case):
             # recomputation chain the library's period is undefined and the refusal is a TypeError)
             C["outside_or_naive_refused"] += 1
             classes.add("refused_with_" + type(e).__name__)
+        elif dk == "first_of_dependent_pattern" and "modeling period" in str(e):
+            V.append({"kind": "a date inside the modelled period (first hour of a usage pattern that feeds the recomputed values) was refused",
+                      "error": str(e)[:200], **ctx})
         else:
             C["sim_refused_valid_change"] += 1
             classes.add(f"valid_date_refused_{dk}_" + type(e).__name__)
@@ -96,7 +112,9 @@ def run_case(case):
     nontrivial = len(m.values_to_recompute) > 0
     if V:
         return {"counters": C, "classes": sorted(classes), "violations": V[:3], "nontrivial": nontrivial, "digest": hashlib.md5(repr(ctx).encode()).hexdigest()[:16]}
-    if dk.startswith("first"):
+    if dk == "first_of_dependent_pattern":
+        C["inside_dates_accepted"] = C.get("inside_dates_accepted", 0) + 1
+    elif dk.startswith("first"):
         ref, err = h.reference(h.spec)       # twin of the baseline
         if ref is not None:
             try:
